@@ -27,6 +27,7 @@ type Engine struct {
 	pure      map[*ssa.Function]bool
 	rowTabs   map[*ssa.Global]*Lit
 	cbytes    map[*ssa.Global][]byte
+	rows256   map[*ssa.Global][]*Lit
 	mapLits   map[*ssa.Global]*Lit
 	failExits map[*ssa.Function][]failExit
 	writes    map[*ssa.Function]bool
@@ -1088,7 +1089,11 @@ func (e *Engine) execBlock(fi *fnInfo, b *ssa.BasicBlock, start int, st *State,
 		if u, ok := b.Instrs[i].(*ssa.UnOp); ok && u.Op == token.MUL {
 			// tokenTable[c] for a per-byte table of an enumerated type with few candidate bytes: one state per
 			// byte, so that the token type stays correlated with the byte consumed
-			if outs := e.enumTableSplit(st, u); outs != nil {
+			outs := e.enumTableSplit(st, u)
+			if outs == nil {
+				outs = e.rowTableSplit(st, u)
+			}
+			if outs != nil {
 				for _, o := range outs {
 					if !o.dead {
 						e.execBlock(fi, b, i+1, o, edge, ret)
@@ -1320,6 +1325,12 @@ func heapPath(v ssa.Value) (string, bool) {
 	fa, ok := v.(*ssa.FieldAddr)
 	if !ok {
 		return "", false
+	}
+	// a row of a package-level table (ops := &opTokens[c]; ops.opEq) is not lexer state
+	if ia, isIA := fa.X.(*ssa.IndexAddr); isIA {
+		if _, isG := ia.X.(*ssa.Global); isG {
+			return "", false
+		}
 	}
 	tp, ok := modTypePath(fa.X.Type())
 	if !ok {
